@@ -278,6 +278,7 @@ def check_property(pid, tier='quick', seed=0):
         m_ = _re.match(r'(\S+) \{(.*)\} \[bounded\]', a)
         if m_:
             btargets.append(dict(fn=m_.group(1), case=m_.group(2)))
+    btargets += [dict(x) for x in spec.get('bounded_extra', [])]
     bounded_results = run_bounded(btargets, tier, seed)
     failing = [r for r in all_results if r['status'] != 'unsat'] + undecided
     n_obl = len(all_results) + len(undecided)
